@@ -399,6 +399,33 @@ mutant('C10', 'param-min-override-ignored', 'frappy/params.py',
 mutant('C10', 'mandatory-not-checked', 'frappy/modulebase.py',
        "            try:\n                self.checkProperties()\n            except ConfigError as e:\n                self.errors.append(str(e))",
        "            pass")
+# ---------------------------------------------------------------- C18
+mutant('C18', 'member-callbacks-not-wired', 'frappy/extparams.py',
+       "                modobj.addCallback(param.name, cb)\n\n\nclass FloatEnumParam", "                pass\n\n\nclass FloatEnumParam")
+mutant('C18', 'struct-callback-not-wired', 'frappy/extparams.py',
+       "            modobj.addCallback(self.name, struct_cb)", "            pass")
+mutant('C18', 'float-enum-first-match', 'frappy/extparams.py',
+       "                    min(vdict, key=lambda i: abs(vdict[i] - value)))",
+       "                    next((i for i in sorted(vdict) if vdict[i] >= value), max(vdict)))")
+mutant('C18', 'float-enum-no-trigger', 'frappy/extparams.py',
+       "            modobj.addCallback(self.idx_name, self.trigger_setter, modobj)", "            pass")
+mutant('C18', 'others-not-deactivated', 'frappy/mixins.py',
+       "                if name != self.name:\n                    deactivate_control(self.name)",
+       "                if name != self.name:\n                    pass")
+mutant('C18', 'controlled-by-not-set', 'frappy/mixins.py',
+       "            out.controlled_by = self.name\n        self.set_control_active(True)",
+       "        self.set_control_active(True)")
+mutant('C18', 'self-control-keeps-controllers', 'frappy/mixins.py',
+       "            self.controlled_by = 0  # self\n            for deactivate_control in self.inputCallbacks.values():\n                deactivate_control(self.name)",
+       "            self.controlled_by = 0  # self")
+mutant('C18', 'limits-plain-tuple', 'frappy/params.py',
+       "            self.datatype = LimitsType(datatype)", "            self.datatype = TupleOf(datatype, datatype)")
+mutant('C18', 'limits-check-only-max', 'frappy/modulebase.py',
+       "            if not min_ <= value <= max_:\n                raise RangeError(f'{pname} outside {pname}_limits')",
+       "            if not value <= max_:\n                raise RangeError(f'{pname} outside {pname}_limits')")
+mutant('C18', 'member-write-drops-others', 'frappy/extparams.py',
+       "                            valuedict = dict(getattr(self, name))\n                            valuedict[membername] = value",
+       "                            valuedict = {m: 0 for m in getattr(self, name)}\n                            valuedict[membername] = value")
 
 
 def run_mutant(prop, name, file, old, new, runs, extra):
